@@ -345,7 +345,7 @@ fn rendezvous_cmd(a: &Args) {
     let mut rng = StdRng::seed_from_u64(seed);
     let mut w = BufWriter::new(File::create(out).unwrap());
     let cores = std::thread::available_parallelism().map(|n| n.get()).unwrap_or(1);
-    let contexts = ["user", "user_par", "default", "batch", "async", "foreign"];
+    let contexts = ["user", "user_par", "default", "batch", "batch_then_pool", "async", "foreign"];
     let hint_sets: Vec<Vec<u8>> = vec![vec![3], vec![1], vec![5], vec![1, 5], vec![2, 3, 4], vec![1, 1, 2]];
     let (mut runs, mut stalls, mut skipped) = (0usize, 0usize, 0usize);
     let mut samples = Vec::new();
@@ -361,7 +361,7 @@ fn rendezvous_cmd(a: &Args) {
             // one attempt = build + `reps` dispatches; returns the events and whether any system timed out
             let attempt = |reps: usize| -> (Vec<serde_json::Value>, bool) {
                 let rv = Rv::new(width, timeout);
-                let psize = width + extra + if ctxname == "batch" || ctxname == "async" { 1 } else { 0 };
+                let psize = width + extra + if ctxname.starts_with("batch") || ctxname == "async" { 1 } else { 0 };
                 let mut evs = Vec::new();
                 let mut any_to = false;
                 let world = World::empty();
@@ -397,6 +397,15 @@ fn rendezvous_cmd(a: &Args) {
                             let mut d = DispatcherBuilder::new()
                                 .with_pool(pool_of(psize))
                                 .with_batch(RvCtl, rv_builder(&rv, &hints), "batch", &[])
+                                .build();
+                            d.dispatch(&world);
+                        }
+                        "batch_then_pool" => {
+                            // the pool that counts is the one installed LAST: the handle is shared with batches
+                            let mut d = DispatcherBuilder::new()
+                                .with_pool(pool_of(1))
+                                .with_batch(RvCtl, rv_builder(&rv, &hints), "batch", &[])
+                                .with_pool(pool_of(psize))
                                 .build();
                             d.dispatch(&world);
                         }
